@@ -34,7 +34,7 @@ def evaluate(d):
         res["tests"] = out.strip().splitlines()[-1] if out.strip() else ""
         res["demo_patched"] = sh(["/venv/bin/python", os.path.join(d, "demo.py")], cwd=wt, env=env)[0]
         ev = tempfile.mkdtemp(prefix="seedev_")
-        env2 = dict(os.environ, CMINX_SA_EVIDENCE_DIR=ev)
+        env2 = dict(os.environ, CMINX_SA_EVIDENCE_DIR=ev, CMINX_SA_NO_CONTROLS="1")  # checker controls are not about the seed
         fired = {}
         for p in PROPS:
             for tier in ("quick", "thorough"):
@@ -55,7 +55,7 @@ def evaluate(d):
 def main():
     args = [a for a in sys.argv[1:] if not a.startswith("--")]
     save = "--save" in sys.argv
-    with cf.ThreadPoolExecutor(max_workers=6) as ex:
+    with cf.ThreadPoolExecutor(max_workers=8) as ex:
         for d, res in ex.map(evaluate, args):
             meta = {}
             try:
